@@ -84,7 +84,10 @@ def gen_scenario(rng, *, family='well', cyclic=False, init_env=False,
             'hard': hard, 'soft': soft,
             'outcome': out,
             'variant': rng.randrange(24),
-            'dur': rng.choice((0, 0, 1, 3, 10, 40, 200)),
+            'dur': rng.choice((0, 0, 1, 3, 10, 40, 200, 0, 1, 3, 10, 40, 200,
+                               # a long one (with the larger ticks: more than
+                               # ten simulated minutes of idle co-workers)
+                               100000)),
             'shared': rng.random() < 0.3,
             'echo_status': family == 'echo' and rng.random() < 0.5,
             'hints': family in ('well', 'echo') and rng.random() < 0.15,
@@ -409,6 +412,15 @@ class ProbeBaseError(BaseException):
     '''Scripted failure of a probe task, not an Exception.'''
 
 
+class GrumpyError(Exception):
+    '''An exception that cannot be printed.'''
+
+    def __str__(self):
+        raise TypeError('can only concatenate str (not "int") to str')
+
+    __repr__ = __str__
+
+
 # --------------------------------------------------------------------------
 # recorder
 
@@ -497,6 +509,8 @@ def build_tasks(scn, mods, recorder, run_tag='r', run_no=0, state=None):
         sim.mark('do-exit', i)
         recorder.exit(sim, rec)
         if specs[i]['outcome'] == 'raise':
+            if specs[i].get('variant', 0) % 5 == 4:
+                raise GrumpyError()
             raise ProbeError('scripted failure of %s' % specs[i]['name'])
         if specs[i]['outcome'] == 'sysexit':
             # exceptions that are not Exceptions
